@@ -147,6 +147,45 @@ fn main() {
             let got: Vec<String> = rd["items\u{266D}"].as_array().unwrap().iter().map(|x| x["_id"].as_str().unwrap().to_string()).collect();
             println!("n={} ok={} elapsed={:?}", n, got == c, t0.elapsed());
         }
+        "cacheprobe" => {
+            // probe only: does a block become applicable because its object happens to sit in the
+            // replica's object cache although no stored pack holds it?
+            use std::sync::{Arc, RwLock};
+            let mkad = || -> Arc<RwLock<Box<dyn Adapter>>> { let a: Box<dyn Adapter> = Box::new(MemoryAdapter::new()); Arc::new(RwLock::new(a)) };
+            // r1 commits an object with content c
+            let a1 = mkad();
+            let r1 = Melda::new(a1.clone()).unwrap();
+            let c = json!({"v": 1, "w": "same content"}).as_object().unwrap().clone();
+            r1.create_object("x", c.clone()).unwrap();
+            r1.commit(None).unwrap();
+            let p1: Vec<String> = a1.read().unwrap().list_objects(".pack").unwrap();
+            // r2 holds only r1's pack (no block), creates another object with the same content: deduplicated, pack-less block
+            let a2 = mkad();
+            {
+                let g = a2.read().unwrap();
+                let k = format!("{}.pack", p1[0]);
+                g.write_object(&k, &a1.read().unwrap().read_object(&k, 0, 0).unwrap()).unwrap();
+            }
+            let r2 = Melda::new(a2.clone()).unwrap();
+            r2.create_object("y", c.clone()).unwrap();
+            r2.commit(None).unwrap();
+            let b2: Vec<String> = a2.read().unwrap().list_objects(".delta").unwrap();
+            println!("r2 block {:?} bytes {}", b2, String::from_utf8_lossy(&a2.read().unwrap().read_object(&format!("{}.delta", b2[0]), 0, 0).unwrap()));
+            // r0 once staged the same content and discarded it; then receives only r2's block
+            let a0 = mkad();
+            let mut r0 = Melda::new(a0.clone()).unwrap();
+            r0.create_object("z", c.clone()).unwrap();
+            r0.unstage().unwrap();
+            {
+                let g = a0.read().unwrap();
+                let k = format!("{}.delta", b2[0]);
+                g.write_object(&k, &a2.read().unwrap().read_object(&k, 0, 0).unwrap()).unwrap();
+            }
+            r0.refresh().unwrap();
+            let live = r0.get_all_objects();
+            let fresh = Melda::new(a0.clone()).unwrap().get_all_objects();
+            println!("live replica objects {:?}; fresh replica on the same storage {:?}", live, fresh);
+        }
         "selfmeld" => {
             // probe only (not part of any check): melding a replica into itself
             let m = mk();
